@@ -218,4 +218,46 @@ PROPS["C13"] = {
     "assumptions": ["recognised key/certificate types are excluded from the dump comparison (file-level op) exactly when a typed trial claims them"],
 }
 
+def nt_c07(lhs, impl):
+    f = lhs.split(" ")
+    name = _hexbytes(f[1]).decode("latin1")
+    data = _hexbytes(f[2])
+    ncls = "reserved" if name.split("/")[-1] in ("authorized_keys", "known_hosts") else ("near" if "authorized_keys" in name or "known_hosts" in name else "other")
+    # candidate fingerprint: which parsers succeed alone
+    succ = []
+    i = f.index("P") if "P" in f else len(f)
+    while i < len(f) and f[i] == "P":
+        n = int(f[i + 2])
+        if n and f[i + 3] == "ok":
+            succ.append(f[i + 1])
+        i += 3 + n
+    return (ncls, bytes(data[:6]).hex(), tuple(succ), impl[:40])
+
+PROPS["C07"] = {
+    "modules": ["WhatIs.Props.C07"],
+    "theorems": ["WhatIs.C07.no_trace", "WhatIs.C07.first_success", "WhatIs.C07.result_origin", "WhatIs.C07.no_inner_star",
+                 "WhatIs.C07.signature_rows_first", "WhatIs.C07.name_rows", "WhatIs.C07.magics_prefix_free",
+                 "WhatIs.C07.reserved_exact", "WhatIs.C07.earlier_rows_silent"],
+    "facts": {"filetypes.rows": 16, "filetypes.patternWithInnerStar": False},
+    "nontrivial": nt_c07,
+    "gen_timeout": 3000,
+    "rule": "full matrix of 17 file-name classes (reserved, reserved under directories, near-misses, arbitrary) x content classes (the "
+            "repo's fixtures of every format, generated PGP keys with/without CRC, garbage inside PGP armor, UUID, JWT, polyglots, each "
+            "signature followed by garbage/text, signatures cut one byte short, empty) plus random mutations; for every input the harness "
+            "records independently what each sniffer and each exported parser does alone. distinct non-trivial = distinct (name class, "
+            "first 6 content bytes, set of parsers that succeed alone, result prefix)",
+    "design_ref": "DESIGN.md §5 C07",
+    "level_text": "Proof: for ALL names, contents and parser/sniffer behaviours the selection loop returns the first successful candidate "
+                  "in table order and the bare description when all fail (no trace); over the regenerated table: signature rows come first "
+                  "without name patterns or sniffers, their signatures are prefix-free (PEM only a prefix of the earlier PGP rows), so no "
+                  "earlier row can match content carrying a signature whatever the file is called; the two reserved names match exact base "
+                  "names only; MatchesName cannot panic. 'PGP armor never reported as PEM' needs the PEM parser itself and is decided by "
+                  "the oracle on the implementation (exploration), not by a theorem.",
+    "level_note": "Trusted: Lean kernel; translator (table incl. constants resolved from jks-go and ssh1); parsers and sniffers are oracle "
+                  "parameters recorded by the harness from the exported functions; filepath.Base model.",
+    "technique": "Lean 4 proof (induction over the candidate list; decide over the regenerated filetypes table) + differential correspondence with recorded parser oracles",
+    "trusted_base": ["exported parser/sniffer functions called alone are the oracle for `run`/`sniff`"],
+    "assumptions": ["a parser's result depends only on (info, data)"],
+}
+
 NOT_CLAIMED = {}
